@@ -63,6 +63,17 @@ def results_space(tier: str):
         for rest in (["INSERT INTO fin SELECT c FROM stage"], ["INSERT INTO fin SELECT c FROM stage", "INSERT INTO fin2 SELECT d FROM stage"],
                      ["INSERT INTO fin SELECT s.c FROM stage s JOIN other o ON 1 = 1"], ["INSERT INTO stage SELECT c, d FROM src", "INSERT INTO fin SELECT c FROM stage"]):
             add("extra:constant-fed", ";\n".join([first] + rest))
+    for sql in (
+        "INSERT INTO report SELECT CASE WHEN a > 0 THEN (SELECT max(v) FROM t2) WHEN a < 0 THEN (SELECT max(w) FROM t3) ELSE 0 END AS m FROM t1",
+        "INSERT INTO report SELECT CASE WHEN a > 0 THEN (SELECT max(v) FROM t2) ELSE (SELECT max(w) FROM t3) END AS m, b FROM t1",
+        "INSERT INTO fin SELECT x.c1, x.c2 FROM tab AS x (c1, c2)",
+        "INSERT INTO fin SELECT x.c1 FROM sch.tab AS x (c1, c2) JOIN other o ON 1 = 1",
+        "INSERT INTO t1 SELECT s.a FROM (SELECT a FROM src) s;\nINSERT INTO t2 SELECT s.a FROM (SELECT a\n   FROM src) s",
+        "WITH c AS (SELECT a FROM src) INSERT INTO t1 SELECT a FROM c;\nWITH c AS (SELECT a\nFROM src) INSERT INTO t2 SELECT a FROM c",
+        "SELECT a.c FROM staging.t1 a;\nDROP TABLE staging.t1",
+        "SELECT c FROM staging.t1;\nDROP TABLE staging.t1",
+    ):
+        add("extra:shapes", sql)
     for r in corpus.corpus():
         for d in corpus.dialects_of(r):
             add("corpus:" + r["id"], r["sql"], d, r["md"])
